@@ -7,8 +7,9 @@ any prefix (C18).  Ported from the control flow of `Font.save` (Lib/defcon/objec
   * a glyph set is written in two phases: each dirty glyph's file (`writeGlyph`, flag cleared),
     and only at the end the listing (`writeContents`);
   * a save-as over an existing destination goes through a temporary directory; when everything
-    is written the destination is removed and the temporary UFO moved in;
-  * `finally` removes the temporary directory; path, format, structure and the font's dirty flag
+    is written the destination is put aside, the temporary UFO moved in, and what was put aside
+    dropped; when the temporary UFO cannot be moved in, the destination is put back (`except`);
+  * `finally` removes the temporary directories; path, format, structure and the font's dirty flag
     are assigned only after all steps succeeded.
 
 Content is abstracted to blobs (Nat).  Core Lean only.
@@ -46,6 +47,8 @@ structure World where
   font : Font
   disk : List (Nat × Ufo)
   temp : Option Ufo := none
+  /-- the old destination of an overwriting save, while the new UFO is being moved in -/
+  aside : Option Ufo := none
   /-- `contents` of the GlyphSet object this save works with (transient) -/
   gsContents : List Nat := []
 deriving Repr
@@ -56,8 +59,9 @@ inductive Step where
   | openGlyphSet
   | writeGlyph (g : Nat)
   | writeContents
-  | removeDest (p : Nat)
+  | moveAside (p : Nat)
   | moveTemp (p : Nat)
+  | dropAside
 deriving DecidableEq, Repr
 
 def lookup (d : List (Nat × Ufo)) (p : Nat) : Option Ufo := (d.find? (fun x => x.1 = p)).map Prod.snd
@@ -101,7 +105,7 @@ def plan (f : Font) (m : Mode) : List Step :=
   ((f.glyphs.map Prod.fst).filter (fun g => isSaveAs m || g ∈ f.glyphDirty)).map Step.writeGlyph ++
   [Step.writeContents] ++
   (match m with
-    | .saveAsOver p => [Step.removeDest p, Step.moveTemp p]
+    | .saveAsOver p => [Step.moveAside p, Step.moveTemp p, Step.dropAside]
     | _ => [])
 
 /-- one atomic step -/
@@ -121,7 +125,8 @@ def exec (m : Mode) (w : World) : Step → World
   | .writeContents =>
     let u := getTarget w (target m)
     putTarget w (target m) { u with listing := w.gsContents }
-  | .removeDest p => { w with disk := remove w.disk p }
+  | .moveAside p => { w with aside := lookup w.disk p, disk := remove w.disk p }
+  | .dropAside => { w with aside := none }
   | .moveTemp p =>
     match w.temp with
     | some u => { w with disk := store w.disk p u, temp := none }
@@ -135,14 +140,21 @@ def finalize (m : Mode) (w : World) : World :=
     | .saveAsOver p => p
   { w with font := { w.font with path := p, dirty := false } }
 
-/-- the `finally` clause -/
-def cleanup (w : World) : World := { w with temp := none, gsContents := [] }
+/-- the `except` clause of the final replace: a destination that was put aside and whose place is
+still empty (the new UFO could not be moved in) is put back -/
+def recover (m : Mode) (w : World) : World :=
+  match m, w.aside with
+  | .saveAsOver p, some u => if (lookup w.disk p).isNone then { w with disk := store w.disk p u } else w
+  | _, _ => w
+
+/-- the `finally` clauses (both temporary directories go) -/
+def cleanup (w : World) : World := { w with temp := none, aside := none, gsContents := [] }
 
 def runSteps (m : Mode) (w : World) (steps : List Step) : World := steps.foldl (exec m) w
 
 /-- a save that fails right before step number `k` (0-based) of its plan -/
 def failAt (m : Mode) (w : World) (k : Nat) : World :=
-  cleanup (runSteps m w ((plan w.font m).take k))
+  cleanup (recover m (runSteps m w ((plan w.font m).take k)))
 
 /-- a save that succeeds -/
 def save (m : Mode) (w : World) : World :=
